@@ -1,5 +1,7 @@
 import LitexModel.Axi.LiteInterconnect
 import LitexModel.Axi.LiteInterconnectTimeout
+import LitexModel.Axi.LiteClosed
+import LitexModel.Axi.LiteSoc
 import LitexModel.Wishbone.Interconnect
 import LitexModel.DriverLib
 import LitexModel.Bits
@@ -18,6 +20,12 @@ import LitexModel.Bits
   open arb    <n> <full 0|1>                                    (AXI(Lite)Arbiter alone: 1 slave = the target)
   open dec    <m> <full 0|1> <dw> <addrWidth> <dec_0> …         (AXI(Lite)Decoder alone: 1 master)
   open p2p
+  open localmon shared|xbar <n> <m> <full> <dw> <addrWidth> <dec_0> …
+       same inputs; outputs per cycle: [LocalOK holds for the write direction, … for the read direction] (0|1), evaluated
+       by `localOKb` on the ghosts `mlNext`/`slNext` accumulated from the port events of the model fabric's run
+  open socaxi <full 0|1> <shared|crossbar> <timeout|none> <n> <dw> <addrWidth> <origin>:<size> …
+       the fabric `SoCBusHandler.do_finalize` builds for these masters / slave regions (`SocAxi.fabric`): the port
+       counts are n and the number of regions
   decoder words (shared with C06, evaluated on the word address `addr[log2(dw/8):]`):
       all | hi:<shift>:<val> | set:<a>,<b>,… | region:<origin>:<size>
 -/
@@ -65,6 +73,36 @@ def numBus {σ : Type} [Repr σ] (n m : Nat) (mach : Machine BusIn σ BusOut) : 
   step s ins := (busInOfNats n m ins).map fun x => (mach.next s x, natsOfBusOut n m (mach.out s x))
   key s := toString (repr s)
 
+/-- State of `open localmon`: the fabric plus the local ghosts of both directions (lists indexed by port). -/
+structure LocSt (σ : Type) where
+  s   : RW σ
+  mlw : List MLocal
+  slw : List Nat
+  mlr : List MLocal
+  slr : List Nat
+deriving Repr
+
+/-- The local rules (`LocalOK`, LitexModel/Axi/LiteClosed.lean) evaluated along the run of a fabric model. -/
+def locMachine {σ : Type} [Repr σ] (c : Cfg) (mw mr : Machine DirIn σ DirOut) : NumMachine (LocSt σ) where
+  init := { s := { w := mw.init, r := mr.init }, mlw := List.replicate c.n {}, slw := List.replicate c.m 0,
+            mlr := List.replicate c.n {}, slr := List.replicate c.m 0 }
+  step st ins := (busInOfNats c.n c.m ins).map fun x =>
+    let xw := wIn x
+    let xr := rIn x
+    let ow := mw.out st.s.w xw
+    let or := mr.out st.s.r xr
+    let mlw := fun i => st.mlw.getD i {}
+    let slw := fun j => st.slw.getD j 0
+    let mlr := fun i => st.mlr.getD i {}
+    let slr := fun j => st.slr.getD j 0
+    ({ s := { w := mw.next st.s.w xw, r := mr.next st.s.r xr },
+       mlw := (List.range c.n).map fun i => mlNext (c.gated false) (mlw i) xw ow i,
+       slw := (List.range c.m).map fun j => slNext (c.gated false) (slw j) xw ow j,
+       mlr := (List.range c.n).map fun i => mlNext (c.gated true) (mlr i) xr or i,
+       slr := (List.range c.m).map fun j => slNext (c.gated true) (slr j) xr or j },
+     [b2n (localOKb c mlw slw xw), b2n (localOKb c mlr slr xr)])
+  key s := toString (repr s)
+
 def parseDec (w : String) : Option Wishbone.DecSpec :=
   match w.splitOn ":" with
   | ["all"] => some .all
@@ -95,6 +133,21 @@ def parseTCfg (args : List String) : Option TCfg :=
     let c ← parseCfg (n :: m :: full :: dw :: aw :: decs)
     let t ← t.toNat?; let dw ← dw.toNat?
     some { toCfg := c, t, dw }
+  | _ => none
+
+/-- `<full> <shared|crossbar> <timeout|none> <n> <dw> <addrWidth> <origin>:<size> …` -/
+def parseSocAxi (args : List String) : Option SocAxi :=
+  match args with
+  | full :: kind :: t :: n :: dw :: aw :: regs => do
+    let full ← parseBool full
+    let kind ← (match kind with | "shared" => some Wishbone.BusKind.shared | "crossbar" => some .crossbar | _ => none)
+    let timeout ← (if t == "none" then some none else t.toNat?.map some)
+    let n ← n.toNat?; let dw ← dw.toNat?; let aw ← aw.toNat?
+    let regions ← regs.mapM fun w =>
+      match w.splitOn ":" with
+      | [o, sz] => do some ((← o.toNat?), (← sz.toNat?))
+      | _ => none
+    some { n, regions, kind, full, timeout, dw, aw }
   | _ => none
 
 end Litex.Axi.Lite
